@@ -358,7 +358,8 @@ def plan(tier):
                 ("pkgdir", ["pkgdir"], ["path", "modimp"], "none", ["same"], 4, s % 4),
                 ("chain3", CHAIN_TREES, ["chain3"], "none", ["same"], 1, 0),
                 ("inout", ["io4"], ["inout"], "none", ["same"], 1, 0),
-                ("sib", ["io4"], ["sib"], "none", ["same"], 8, s % 8)]
+                ("sib", ["io4"], ["sib"], "none", ["same"], 8, s % 8),
+                ("dotted", [], [], "dotted", ["same"], 1, 0)]
     return [("t3", ["deep3", "wide3", "dir3"], FAMILIES, "none", ["same"], 1, 0),
             ("wide3g", ["wide3"], ["list", "imp1"], "none", ["all"], 1, 0),
             ("alias4", ["alias4"], FAMILIES, "none", ["same"], 1, 0),
@@ -369,7 +370,8 @@ def plan(tier):
             ("mix4", ["mix4"], FAMILIES, "none", ["same"], 2, s % 2),
             ("full6", ["full6"], FAMILIES, "none", ["same"], 12, s % 12),
             ("full7", ["full7"], FAMILIES, "none", ["same"], 32, s % 32),
-            ("disc", [], [], "full", ["same"], 1, 0)]
+            ("disc", [], [], "full", ["same"], 1, 0),
+            ("dotted", [], [], "dotted", ["same"], 1, 0)]
 
 
 def spec_to_impl(tier, ev, verd, stats):
